@@ -980,6 +980,10 @@ class Mini:
         for suffix, f in getattr(self, "overrides", {}).items():
             if p.endswith(suffix) and p.startswith(("std::", "core::", "alloc::")):
                 return f([recv] + args)
+        if p in ("std::cmp::Ord::min", "std::cmp::Ord::max") and isinstance(recv, int) and len(args) == 1 and isinstance(args[0], int) and not isinstance(recv, bool):
+            return min(recv, args[0]) if nm == "min" else max(recv, args[0])
+        if p == "std::cmp::Ord::clamp" and all(isinstance(x, int) and not isinstance(x, bool) for x in [recv] + args) and len(args) == 2:
+            return max(args[0], min(recv, args[1]))
         if p in ("std::io::Read::read_exact",) or p.endswith("AsyncReadExt::read_exact") or p.endswith("ReadExt::read_exact"):
             buf = args[0]
             if not isinstance(recv, Stream) or not isinstance(buf, list):
